@@ -26,7 +26,9 @@ type ckSpec struct {
 	Sp         string // "" | before (CreateSavepoint creates it) | while (savepoint requested while pending)
 	HoldWrite  int    // k>0: the snapshot Write is held until k later checkpoints have been published
 	HoldRemove int    // k>0: the first Remove issued from now on is held until k later checkpoints were published
+	HoldList   int    // k>0: the first directory listing the store issues from now on is held likewise (slow object-store LIST)
 	Restart    bool   // new Store + LoadCheckpoint after this checkpoint (only when nothing is parked)
+	Crash      bool   // the job process dies between the Write of this checkpoint and the Remove of its predecessor; a new Store takes over and the scenario goes on
 }
 
 type scenario struct {
@@ -86,6 +88,12 @@ func genScenario(c *lib.Ctx) scenario {
 		}
 		if r.Intn(8) == 0 {
 			sp.Restart = true
+		}
+		if i < n-1 && r.Intn(5) == 0 {
+			sp.HoldList = 1 + r.Intn(2)
+		}
+		if i > 0 && sp.HoldWrite == 0 && sp.HoldRemove == 0 && sp.HoldList == 0 && r.Intn(6) == 0 {
+			sp.Crash = true
 		}
 		sc.Specs = append(sc.Specs, sp)
 	}
@@ -188,6 +196,17 @@ func runScenario(c *lib.Ctx, sc scenario) {
 			e.logOp("hold the next Remove of a snapshot file until %d later checkpoint(s) are published", sp.HoldRemove)
 			c.Feat("held_removes", 1)
 		}
+		var hc *Hold
+		if sp.Crash && len(holds) == 0 && e.gl.Parked() == 0 {
+			hc = e.gl.Hold("remove", func(rel string, wid uint64) bool { return filepath.Ext(rel) == ".snapshot" })
+			e.logOp("the process will die before the Remove that follows the Write of snapshot %d", id)
+		}
+		if sp.HoldList > 0 {
+			hl := e.gl.Hold("list", func(string, uint64) bool { return true })
+			holds = append(holds, held{hl, i + sp.HoldList, "next directory listing by the store"})
+			e.logOp("hold the next directory listing by the store until %d later checkpoint(s) are published", sp.HoldList)
+			c.Feat("held_listings", 1)
+		}
 		// every node acknowledges, in a seeded order
 		var acks []*ackRec
 		for _, n := range opN {
@@ -232,6 +251,26 @@ func runScenario(c *lib.Ctx, sc scenario) {
 		for _, h := range lib.Shuffled(r, due) {
 			e.logOp("release: %s", h.what)
 			h.h.Release()
+			e.quiesce()
+		}
+		if hc != nil {
+			if hc.Arrived(callWatchdog / 4) {
+				// crash: the Remove never happens; whatever the dead process still had to do is lost
+				hc.Drop()
+				log := e.gl.Log()
+				ids, _ := snapshotsIn(Image(log, len(log)))
+				e.logOp("crash between Write(%d) and the Remove of its predecessor (snapshots present: %v); new Store + LoadCheckpoint", id, ids)
+				if err := e.startStore(""); err != nil {
+					c.Fail("load-error", e.wit(), "LoadCheckpoint after the crash: %v", err)
+				}
+				c.Feat("crash_restarts_with_two_snapshots", 1)
+				if cur := e.store.CurrentCheckpoint(); cur.GetId() != maxID(ids) {
+					c.Fail("load-not-newest", e.wit(), "restart after the crash: recovered checkpoint %d, newest completed snapshot present is %d (present: %v)", cur.GetId(), maxID(ids), ids)
+				}
+				lastID = maxID(ids)
+				continue
+			}
+			hc.Release() // no Remove was issued (nothing to clean up yet)
 			e.quiesce()
 		}
 		liveCheck(fmt.Sprintf("after checkpoint %d", id))
@@ -322,34 +361,69 @@ func runScenario(c *lib.Ctx, sc scenario) {
 	_ = overlaps
 }
 
-// retentionRule: never Remove the newest completely written snapshot; never announce a retained set
-// that omits it.
-func retentionRule(c *lib.Ctx, e *env, log []LocEvent, feats bool) {
-	var newest uint64
-	for _, ev := range log {
+// retentionRule: never Remove the newest completely written snapshot; retention notices never go back to an
+// older checkpoint, and once the store is quiet (final) the last notice names the newest published checkpoint.
+//
+// A notice is a message: the store decides to send it when a checkpoint completes, and the next checkpoint's
+// file may be completely written before the message is received. "Names an older one as the only one to keep"
+// is therefore judged on the order of the notices and on the final one, not against the file writes that
+// happened while the message was in flight (an operator never drops a checkpoint newer than the announced one).
+func retentionRule(c *lib.Ctx, e *env, log []LocEvent, final bool) {
+	var newest, maxNotified uint64
+	var lastNotice *LocEvent
+	writesOfLive, hadPredecessor := 0, false
+	var newestOfLive uint64
+	for i := range log {
+		ev := log[i]
 		switch {
+		case ev.Op == "store-start":
+			writesOfLive, newestOfLive, lastNotice = 0, 0, nil
+			hadPredecessor = newest != 0
 		case ev.Role == "store" && ev.Op == "write" && ev.ID != 0 && ev.Err == "":
 			if ev.ID > newest {
 				newest = ev.ID
 			}
-			if feats {
+			writesOfLive++
+			if ev.ID > newestOfLive {
+				newestOfLive = ev.ID
+			}
+			if final {
 				c.Feat("snapshot_writes", 1)
 			}
 		case ev.Op == "remove" && ev.ID != 0 && ev.Err == "":
-			if feats {
+			if final {
 				c.Feat("snapshot_removes", 1)
 			}
 			if ev.ID == newest {
 				c.Violate("removed-newest-snapshot", e.wit("event", ev.String()), "%v removes the snapshot file of checkpoint %d, the newest completed checkpoint", ev, ev.ID)
 			}
 		case ev.Op == "notify":
-			if feats {
+			if final {
 				c.Feat("retention_notices", 1)
 			}
-			if newest != 0 && !containsID(ev.IDs, newest) {
-				c.Violate("retention-drops-newest", e.wit("event", ev.String()), "%v tells the operators to retain only %v although checkpoint %d is the newest completely written one", ev, ev.IDs, newest)
+			m := maxID(ev.IDs)
+			if m < maxNotified {
+				c.Violate("retention-drops-newest", e.wit("event", ev.String()), "%v tells the operators to retain only %v after an earlier notice had already named checkpoint %d", ev, ev.IDs, maxNotified)
 			}
+			if m > maxNotified {
+				maxNotified = m
+			}
+			if newest != 0 && !containsID(ev.IDs, newest) {
+				c.Feat("notices_overtaken_by_the_next_snapshot_write", 1) // in flight while the next file was written
+			}
+			lastNotice = &log[i]
 		}
+	}
+	if !final {
+		return
+	}
+	// Quiet store. The first completion on empty storage is not announced (nothing is obsolete yet) and with
+	// overlapping publication that need not be the smallest id, so "no notice at all" tells the operators nothing
+	// and is safe; but once the live store has announced anything, its last notice must name the newest
+	// checkpoint it published (every completion that has a predecessor is announced).
+	_, _ = writesOfLive, hadPredecessor
+	if lastNotice != nil && newestOfLive != 0 && !containsID(lastNotice.IDs, newestOfLive) {
+		c.Violate("retention-drops-newest", e.wit("event", lastNotice.String()), "the store is quiet: its last retention notice names %v, the newest checkpoint it published is %d", lastNotice.IDs, newestOfLive)
 	}
 }
 
